@@ -71,11 +71,12 @@ def _xor(a, b):
 
 
 class Bits:
-    __slots__ = ("b",)
+    __slots__ = ("b", "_si")
 
     def __init__(self, b):
         assert len(b) == N
         self.b = tuple(b)
+        self._si = None
 
     # ---- constructors -----------------------------------------------
     @staticmethod
@@ -191,16 +192,22 @@ class Bits:
     def subst(self, asg):
         if not asg:
             return self
-        out = []
-        for x in self.b:
-            if isinstance(x, tuple):
-                k = ("s",) + x[1:]
-                if k in asg:
-                    v = asg[k]
-                    out.append(v if x[0] == "s" else 1 - v)
-                    continue
-            out.append(x)
-        return Bits(out)
+        si = self._si
+        if si is None:
+            si = self._si = tuple(i for i, x in enumerate(self.b) if isinstance(x, tuple))
+        if not si:
+            return self
+        out = None
+        b = self.b
+        for i in si:
+            x = b[i]
+            k = x if x[0] == "s" else ("s",) + x[1:]
+            v = asg.get(k)
+            if v is not None:
+                if out is None:
+                    out = list(b)
+                out[i] = v if x[0] == "s" else 1 - v
+        return self if out is None else Bits(out)
 
     def __eq__(self, o):
         return isinstance(o, Bits) and self.b == o.b
